@@ -344,7 +344,7 @@ def errors_and_nodes(sql, dialect, res, record):
                     res["nodes_checked"] += 1
                     seg = sql[m["start"]:m["end"] + 1]
                     name = node.name
-                    if name.lower() not in seg.lower():
+                    if name.lower() not in seg.lower() and "\\" not in seg:
                         record("node.span", dialect, "nodes", sql, f"identifier {name!r} records span {m['start']}..{m['end']} = {seg!r}")
                     elif 0 <= m["end"] < len(sql) and (m.get("line"), m.get("col")) != pos[m["end"]]:
                         record("node.linecol", dialect, "nodes", sql, f"identifier {name!r} records line/col {(m.get('line'), m.get('col'))}, text position {pos[m['end']]}")
